@@ -405,16 +405,23 @@ def build(spec, apply_sources=True, apply_params=True, model_function=None):
         fit = kafe2.HistFit(hc, f, cost_function=spec["cost"], bin_evaluation=be, density=spec.get("density", True), **common)
     else:
         fit = kafe2.UnbinnedFit(np.asarray(spec["samples"], float), f, cost_function=spec["cost"], minimizer=common["minimizer"])
-    if apply_sources:
+    def _sources():
         for s in spec.get("sources", []):
             add_source(fit, spec, s)
         for con in spec.get("constraints", []):
             add_constraint(fit, con)
-    if apply_params:
+
+    def _params():
         if spec.get("start"):
             fit.set_parameter_values(**{nm: float(v) for nm, v in spec["start"].items()})
         for nm, v in spec.get("fixed", {}).items():
             fit.fix_parameter(nm, None if v is None else float(v))
         for nm, (lo, hi) in spec.get("limits", {}).items():
             fit.limit_parameter(nm, lo, hi)
+
+    # the order of declaration is part of the specification: "params_first" sets / fixes / limits the parameters before any uncertainty or constraint exists
+    steps = ([(apply_params, _params), (apply_sources, _sources)] if spec.get("build_order") == "params_first" else [(apply_sources, _sources), (apply_params, _params)])
+    for on, step in steps:
+        if on:
+            step()
     return fit
